@@ -89,3 +89,7 @@ Inductive fail_test := FailBaseException | FailException | FailTestUnknown.
 
 (* ForkProcessRunner.close: does closing a runner remove its own entry of the fork-memory registry only, or empty the registry? *)
 Inductive close_mode := CloseOwn | CloseAll | CloseUnknown.
+
+(* Lab.is_cached: the answer of the task type's cache class for the Lab's storage, asked every time (IsCachedAsksCache); the bare
+   existence of the key in the storage (IsCachedAsksStorage); or an answer the Lab object may have remembered (IsCachedMemoises). *)
+Inductive is_cached_mode := IsCachedAsksCache | IsCachedAsksStorage | IsCachedMemoises | IsCachedUnknown.
